@@ -1,3 +1,3 @@
 SPECIFICATION Spec
-INVARIANTS ExactlyOne DisabledSchemeNeverReaches NoCredentialsNeverReach SomethingToTry
+INVARIANTS ExactlyOne DisabledSchemeNeverReaches NoCredentialsNeverReach SomethingToTry HistoryOpensNothing ReachIffConfirmed
 CHECK_DEADLOCK FALSE
